@@ -175,6 +175,17 @@ fn git_view(dir: &Path, names: &BTreeSet<String>) -> Result<BTreeMap<String, Str
             out.insert(n.to_string(), format!("sym:{sym}"));
         }
     }
+    // for-each-ref leaves out symbolic refs whose target does not exist; `git symbolic-ref <name>` would print the
+    // target read from the loose file, which is done here directly to keep the number of processes per crash point low
+    for n in names {
+        if n != "HEAD" && !out.contains_key(n) {
+            if let Ok(content) = std::fs::read_to_string(dir.join(n)) {
+                if let Some(target) = content.strip_prefix("ref: ") {
+                    out.insert(n.clone(), format!("sym:{}", target.trim_end()));
+                }
+            }
+        }
+    }
     // refs that for-each-ref refuses to list are reported on stderr ("ignoring broken ref", "ignoring dangling symref")
     for line in fe.err_text().lines() {
         for n in names {
